@@ -108,9 +108,19 @@ def hyp_case(draw, max_len):
     return {"seq": s, "perm": "".join(draw(st.permutations(list(s)))), "warm": warm}
 
 
-def parts(tier):
+def _parts(tier):
     return [
         Part("enum-words", "enum", check=check_seq, cases=enum_cases, exhaustive=True, shards={"quick": 8, "thorough": 16}),
         Part("hyp-sequences", "hyp", check=check_seq, strategy=lambda t: hyp_case(400 if t == "quick" else 800),
              examples={"quick": 6400, "thorough": 32000}, shards={"quick": 8, "thorough": 16}),
     ]
+
+
+def parts(tier):
+    ps = _parts(tier)
+    from .. import fuzz
+    if tier == "thorough" and fuzz.available():
+        # the same structured cases, generated coverage-guided: libFuzzer bytes drive the Hypothesis strategy (fuzz_one_input)
+        ps.append(Part("atheris-guided", "custom", check=[p for p in ps if p.name == "hyp-sequences"][0].check, shards={"quick": 1, "thorough": 8},
+                       run=lambda ctx, t, seed, idx, n: fuzz.hyp_campaign(ctx, "c04", "hyp-sequences", seed, idx, runs=30000)))
+    return ps
